@@ -69,6 +69,11 @@ CHECKS = {
    note="Trusted: simrt + instrumenter; commit tap on the server store; transport stub as in C11; cenkalti/backoff runs for real on the virtual clock (15-minute retry budget costs microseconds). In the quick tier the enumeration is sampled down to 30 scripts per history when larger (reported as enumeration-sampled vs enumeration-complete probes); the thorough tier runs all.",
    technique=TECH+"per-history enumeration of stream-reset positions and re-establishment failures on the simulated transport, stream compared with the server's commit-tap log",
    ref="DESIGN.md §7 C13"),
+ "C14": dict(level="exploration",
+   text="Seeded search over random selectors (all operators, inversion, empty value lists, non-numeric operands, unit suffixes, missing labels, AND within / OR across queries, id regexps) and label-churning write histories under controlled schedules; at quiescence List(selector) at the direct state, through the simulated gRPC leg and from the runtime cache must equal a brute-force filter of the unfiltered List through an INDEPENDENT reference evaluator written from the documented semantics, and every filtered kind watch (single/aggregated, bootstrap or not, direct or remote) must be, event by event with bookmarks, the change log of the filtered set derived from the commit log (moves in/out as Created/Destroyed).",
+   note="Trusted: simrt + instrumenter; the reference evaluator (selector.go) is independent code but written by the same author as the reading of the documentation; commit tap; transport stub as in C11. The pure selector algebra is input-quantified: it is exercised through the histories it filters, not fuzzed exhaustively.",
+   technique=TECH+"differential against an independent reference selector evaluator over lists at four evaluation sites and over filtered watch streams derived from the commit-tap log",
+   ref="DESIGN.md §7 C14"),
  "C16": dict(level="exploration",
    text="Seeded search over finite fault scripts and schedules: controllers erroring or panicking at Run start, at the first reconcile, after one healthy cycle or between StartTrackingOutputs and CleanupOutputs; run hooks failing at once or after two healthy virtual minutes; pkg/task tasks failing and panicking; queue items following outcome scripts; a tiny history that makes the runtime's own watch overrun; cancellation at a random virtual instant while controllers write. Oracles: Run keeps running under controller faults, every failed unit is restarted and (controllers) reconciles again, healthy controllers stay current at every quiescent point while others fail, restart delays after >=5 consecutive failures exceed every first-failure delay of the same run and reset after a healthy cycle, the whole system converges after the last fault; on a watch failure Run returns that error and nothing reconciles afterwards; after cancellation Run returns, the task table is empty (no goroutine, watch or hook left) and the commit tap shows no write by a runtime task after the return.",
    note="Trusted: simrt + instrumenter; controller/hook/task bodies are harness code following the scripts; backoff jitter is real (seeded). Backoff oracles compare delays observed in the same run, not library constants. Sampling only.",
